@@ -186,6 +186,21 @@ def sens_case(case):
     if case['clipping'] == 'per_layer' and any(x > case['C'] * (1 + 1e-9) + 1e-12 for x in per):
         bad.append('per-layer: a tensor moved by %.6g > its bound %.6g' % (max(per), case['C']))
     extra = {}
+    if bad and case['clipping'] == 'ghost' and case.get('lcol'):
+        # recorded finding (column-shaped per-sample losses): is the pre-noise sum the broadcast form sum_chunks (sum_j c_j)(sum_i g_i)?
+        tg = true_grads(model, X, T)
+        k = max(1, min(case.get('split', 1), n))
+        bounds = [round(j * n / k) for j in range(k + 1)]
+        chunks = [(bounds[j], bounds[j + 1]) for j in range(k) if bounds[j + 1] > bounds[j]] or [(0, n)]
+        cs = [min(1.0, case['C'] / (float(torch.cat(g_).norm()) + 1e-6)) for g_ in tg]
+        dexp = [torch.zeros_like(x) for x in s_full]
+        for a, b in chunks:
+            for kk in range(len(dexp)):
+                dexp[kk] += sum(cs[a:b]) * sum(tg[j][kk] for j in range(a, b))
+        if case['red'] == 'mean':
+            pass        # p.grad of the second pass is a SUM over the batch for both reductions
+        derr = max(float((a - b).abs().max()) / (1.0 + float(b.abs().max())) for a, b in zip(s_full, dexp))
+        extra['defect_form'] = derr <= 1e-7
     if case['model'] == 'rnnpack':
         lens = [int(v) for v in PackedLSTM.lengths(X)]
         extra['lens_sorted'] = all(lens[j] >= lens[j + 1] for j in range(len(lens) - 1)) and \
@@ -279,9 +294,22 @@ def step_case(case):
     denom = case['B'] * n_acc if case['red'] == 'mean' else 1      # expected batch size x accumulated batches; no division for sum
     exp = [e / denom for e in exp]
     err = max(float((a - b).abs().max()) / (1.0 + float(b.abs().max())) for a, b in zip(released, exp))
+    defect_form = False
+    if err > 1e-8 and clipping == 'ghost' and case.get('lcol'):
+        # recorded finding: coeff [B] * loss [B, 1] broadcasts to [B, B]; every physical batch contributes (sum_j c_j) * (sum_i g_i)
+        dexp = [torch.zeros_like(r) for r in released]
+        for a, b in (chunks or [(0, n)]):
+            csum = sum(factors[j][0] for j in range(a, b))
+            for k in range(len(dexp)):
+                dexp[k] += csum * sum(tg[j][k] for j in range(a, b))
+        if case['nm'] != 0 and len(rec) == len(params):
+            dexp = [e + z for e, z in zip(dexp, rec)]
+        dexp = [e / denom for e in dexp]
+        derr = max(float((a - b).abs().max()) / (1.0 + float(b.abs().max())) for a, b in zip(released, dexp))
+        defect_form = derr <= 1e-8
     if err > 1e-8:
         bad.append('released gradient differs from (sum_i min(1,C/(|g_i|+1e-6)) g_i + z)/B%s by rel. %.3g' % (' (B x %d accumulated batches; none for sum)' % n_acc if n_acc > 1 else '', err))
-    return {'bad': bad, 'err': err,
+    return {'bad': bad, 'err': err, 'defect_form': defect_form,
             'grads': [[[float(v) for v in x] for x in gs] for gs in tg], 'factors': factors, 'C': C}
 
 
